@@ -70,6 +70,36 @@ def run(ctx):
              ctx.construct(bq, extra='terminal minus ignored'),
              'desired states are not TERMINAL_STATES (SUCCESS/ERROR/'
              'CANCELLED) minus the ignored states', ctx.loc(bq))
+    # the ignored states are the configured ones for BOTH criteria: either
+    # the base query reads the option itself or every caller hands it over
+    OPT = 'CONF.execution_expiration_policy.ignored_states'
+    okopt = False
+    why = ''
+    if ds and isinstance(ds[0].value, ast.BinOp):
+        right = U.canon_expr(bq.node, ds[0].value.right)
+        if OPT in norm(right, 300):
+            okopt = True
+        else:
+            pars = [p_ for p_ in bq.params if p_ in U.names_in(right)]
+            callers = [(f2, c) for f2 in prog.funcs.values()
+                       if f2.module == bq.module
+                       for c in own_nodes(f2.node)
+                       if isinstance(c, ast.Call) and
+                       U.call_name(c) == bq.name]
+            okopt = bool(pars) and bool(callers)
+            for f2, c in callers:
+                for p_ in pars:
+                    a = U.kwarg(c, p_, bq.params.index(p_))
+                    if a is None or OPT not in norm(
+                            U.canon_expr(f2.node, a), 300):
+                        okopt = False
+                        why = '%s does not pass it' % f2.name
+    r1.check(okopt, ctx.construct(bq, extra='configured ignored states for '
+                                  'every criterion'),
+             'the ignored states taken off the terminal states are not the '
+             'configured option on every way into the query (%s): one '
+             'criterion deletes executions in states the operator asked to '
+             'keep' % why, ctx.loc(bq))
     ex = prog.func(DB + '.get_expired_executions')
     cfg = ctx.cfg(ex)
     ops, base, rets = qshape.query_ops(cfg, ex.node)
@@ -253,3 +283,25 @@ def run(ctx):
              ctx.construct(init, extra='enabling predicate'),
              'the policy is no longer enabled by "option >= 1" for either '
              'option', ctx.loc(init))
+
+    # ---- R5 the age threshold is computed in UTC, like the stored times ----------
+    r5 = ctx.rule('R5', 'thresholds compared with stored (UTC) timestamps are '
+                  'computed from a UTC clock', 'WMW (time sources)')
+    from mstatic.rules import shared
+    shared.utc_time_sources(
+        ctx, r5, ['mistral.services.expiration_policy',
+                  'mistral.db.v2.sqlalchemy.api',
+                  'mistral.db.v2.sqlalchemy.models',
+                  'mistral.db.sqlalchemy.model_base'], 2)
+    rn = prog.func(EP + '.run_execution_expiration_policy')
+    exp = [x for x in own_nodes(rn.node) if isinstance(x, ast.BinOp) and
+           isinstance(x.op, ast.Sub) and any(
+               isinstance(y, ast.Call) and U.call_name(y) == 'timedelta'
+               for y in ast.walk(x.right))]
+    r5.check(len(exp) == 1 and isinstance(exp[0].left, ast.Call) and
+             (dotted(exp[0].left.func) or '') in shared.UTC_TIME and
+             any(k.arg == 'minutes' for y in ast.walk(exp[0].right)
+                 if isinstance(y, ast.Call) for k in y.keywords),
+             ctx.construct(rn, extra='now(UTC) - older_than minutes'),
+             'the expiration time is not "UTC now minus older_than minutes"',
+             ctx.loc(rn))
